@@ -23,7 +23,7 @@ RULE = (
     "arbitrary decision indices), so every run is deterministic and replayable. In addition ALL interleavings of "
     "two tasks are enumerated depth-first over the scheduler's choice points for eight configurations (same name twice, two "
     "names, evaluate + statistic on an empty and on a non-empty file, resumed file, two statistics; threads, and forks up "
-    "to a leaf limit). Oracle: TSV model - final file = header + "
+    "to a leaf limit), and, in the thorough tier, all interleavings with at most two preemptions of three and four tasks. Oracle: TSV model - final file = header + "
     "exactly one complete row per distinct submitted name, each equal to the row of a sequential run; deadlock (live "
     "tasks, none runnable) = a call that blocks forever; every statistic built when the file held >=1 complete row "
     "succeeds and contains only submitted names with the sequential values. Non-trivial: >=1 switch away from a task "
@@ -96,11 +96,17 @@ DFS_CONFIGS = [
 def enumerations(tier):
     """Exhaustive exploration of *all* interleavings of two tasks (depth-first over the scheduler's
     choice points); one configuration per shard."""
-    limit = 3000 if tier == "quick" else 200000
+    limit = 2100 if tier == "quick" else 200000
     def g():
         for name, mode, tasks, pre in DFS_CONFIGS:
             yield {"dfs": name, "mode": mode, "tasks": tasks, "pre": pre, "limit": limit if mode == "threads" else limit // 5}
-    return [("all_interleavings_of_two_tasks", g())]
+        if tier == "quick":
+            return
+        # three and four tasks: all interleavings with at most two preemptions (thorough tier)
+        for name, tasks, pre in (("3_tasks_same_name", [E(0), E(0), E(0)], 0), ("3_tasks_mixed", [E(0), E(1), S], 1),
+                                 ("3_tasks_collision+stat", [E(1), E(1), S], 0), ("4_tasks_mixed", [E(0), E(0), E(2), S], 1)):
+            yield {"dfs": name + "_preempt<=2", "mode": "threads", "tasks": tasks, "pre": pre, "limit": limit, "max_preempt": 2}
+    return [("all_interleavings_of_two_tasks_and_preemption_bounded_of_3_4", g())]
 
 
 def check_dfs(meta, stats):
@@ -115,8 +121,13 @@ def check_dfs(meta, stats):
             v.case = case
             raise
         n += 1
+        bound = meta.get("max_preempt")
+        used = sum(1 for c, (_, cur_in) in zip(prefix, br) if c != 0 and cur_in)
         for i in range(len(prefix), len(br)):
-            for alt in range(1, br[i]):
+            nb, cur_in = br[i]
+            if bound is not None and cur_in and used >= bound:
+                continue  # a further preemption would exceed the bound (switches at blocking points are free)
+            for alt in range(1, nb):
                 stack.append(prefix + [0] * (i - len(prefix)) + [alt])
     stats.count(f"dfs_leaves:{meta['dfs']}", n)
     stats.count(f"dfs_{'complete' if not stack else 'truncated'}:{meta['dfs']}")
